@@ -13,7 +13,7 @@ import scpsim
 from lib import zlit, vlist
 
 LEVEL = "proof"
-UNITS = ["GenSCP"]
+UNITS = ["GenSCP", "GenSCPShape"]
 
 # The SC&MP protocol's codes, written here independently of rig.machine_control.consts
 RC_OK = 0x80
@@ -202,6 +202,33 @@ def slow_user_code_cases():
                             "ops": [{"op": "burst", "window": 2, "cmds": [[0, 5 * T if tries > 1 else 0], [1, 0]],
                                      "iter": {}, "cb": {"0": cbd}}]})
                 idx += 1
+    return out
+
+
+def busy_ahead_cases():
+    """A busy (retryable) reply queued AHEAD of the in-time OK reply to another command that is on its last try
+    and whose deadline has passed while a slow callback ran: both are read in one pass; the busy one is dropped,
+    the OK one completes its command.  Command 2 (long extra timeout) gets the busy answer and a late real one."""
+    out, idx, T = [], 5000000, 10
+    for tries in (1, 2):
+        for busy in sorted(RC_RETRYABLE):
+            for cbd in (T + 5, 3 * T):
+                for gap in (0, 1):
+                    # tx0 = command 0 (answered at once, slow callback); tx1 = command 1, tx2 = command 2;
+                    # tries 2: command 1's first request is lost, its retransmission is tx3 at T + 1
+                    base = 0 if tries == 1 else T + 1
+                    last1 = 1 if tries == 1 else 3
+                    plan = {"2": {"lost": False, "replies": [[base + 3, busy], [base + 6 * T, None]]},
+                            str(last1): {"lost": False, "replies": [[3 + gap, None]]}}
+                    if tries == 2:
+                        plan["1"] = {"lost": True, "replies": []}
+                        plan["0"] = {"lost": False, "replies": [[base + 1, None]]}
+                    out.append({"n_tries": tries, "timeout": T, "advance_seq": 0, "mood": "busy-ahead", "idx": idx,
+                                "buffer_size": 256, "positional": False,
+                                "policy": {"kind": "sim", "plan": plan, "exact": [], "max_selects": 300},
+                                "ops": [{"op": "burst", "window": 3, "cmds": [[0, 20 * T], [1, 0], [2, 20 * T]],
+                                         "iter": {}, "cb": {"0": cbd}}]})
+                    idx += 1
     return out
 
 
@@ -414,6 +441,11 @@ def oracle(c, res):
         for pos, t in enumerate(tr):
             if t[0] == "send":
                 _, tx, cid, seq, now, h = t
+                if cid <= -1000000:                # the driver: not the datagram of command arg1 as submitted
+                    cid = -1000000 - cid
+                    fail("send-bytes", "transmission %d of command %d is not the datagram of that command as submitted"
+                         % (tx, cid))
+                    h = expected_hash(cid) if cid in extra else h
                 if cid not in extra:
                     fail("send-unknown-command", "transmission %d carries command %r, not a command of this burst" % (tx, cid))
                     continue
@@ -576,7 +608,7 @@ def run(chk, args):
                  if "case" in f.get("replay", {})]
     else:
         n = 1300 if chk.tier == "quick" else 40000
-        cases = special_cases(chk.tier) + history_cases() + slow_user_code_cases() + shared_payload_cases() + enumerated_cases(chk.tier) + [gen_case(chk.rng, i) for i in range(n)]
+        cases = special_cases(chk.tier) + history_cases() + slow_user_code_cases() + shared_payload_cases() + busy_ahead_cases() + enumerated_cases(chk.tier) + [gen_case(chk.rng, i) for i in range(n)]
     corpus = os.path.join(lib.VERIF, "corpus", "C06.json")
     if os.path.exists(corpus):
         cases = json.load(open(corpus)) + cases
